@@ -9,6 +9,7 @@ from gen import fa as genfa, edits
 import gambatools.dfa_algorithms as da
 
 ID = 'C04'
+GENERIC_LOGGING_KNOB = False     # this property manages the logging knob itself
 OPS = ('dfa_minimize', 'dfa_quotient', 'dfa_hopfcroft')
 RULE = ('cases = seeded random complete DFAs (1-7 core states + 0-3 unreachable, |Sigma| 0-3, accepting ratio drawn from '
         '{0,.1,.5,.9,1}), DFAs with deliberately split (equivalent) states, and a fixed corner corpus; each renamed '
@@ -26,7 +27,13 @@ def gen_cases(rng, tier, rnd):
                 spec, rank = genfa.rename(c, rng)
                 cases.append({'spec': spec, 'rank': rank, 'abs': hx(c), 'log': rng.random() < 0.3})
     while len(cases) < n:
-        a = genfa.structured_dfa(rng) if rng.random() < 0.35 else genfa.abstract_dfa(rng)
+        r = rng.random()
+        if r < 0.04:
+            a = genfa.abstract_dfa(rng, 12, 22, 3, 4, unreachable_max=2, acc_ratios=(0.3, 0.5, 0.5, 0.7))     # many Nerode classes
+        elif r < 0.38:
+            a = genfa.structured_dfa(rng)
+        else:
+            a = genfa.abstract_dfa(rng)
         spec, rank = genfa.rename(a, rng)
         case = {'spec': spec, 'rank': rank, 'abs': hx(a), 'log': rng.random() < 0.25}
         if rng.random() < 0.3:
@@ -110,6 +117,8 @@ def run_case(case, env):
         out['probes']['F_full'] = 1
     if len(snap0['Q']) == 1:
         out['probes']['one_state'] = 1
+    if call_all >= 12:
+        out['probes']['at_least_12_classes'] = 1
     if not snap0['Sigma']:
         out['probes']['sigma_empty'] = 1
     if case.get('log'):
